@@ -15,6 +15,7 @@ import (
 	"path/filepath"
 	"sort"
 	"strings"
+	"sync"
 
 	"github.com/bufbuild/buf/private/buf/buftarget"
 	"github.com/bufbuild/buf/private/buf/bufworkspace"
@@ -400,6 +401,31 @@ func (m *dsim) digests(ctx context.Context, c cfg, override map[int]map[string][
 	if err != nil {
 		return nil, err
 	}
+	// a digest is a function of content: whatever else was asked of the module set first
+	// (dependency graph, direct dependencies, file listing) must not change it
+	switch m.tp.Draw("d.precall", 4) {
+	case 1:
+		if _, err := bufmodule.ModuleSetToDAG(moduleSet); err != nil {
+			return nil, err
+		}
+		m.s.Probe("digest-after-dependency-graph")
+	case 2:
+		for _, mod := range moduleSet.Modules() {
+			if _, err := bufmodule.ModuleDirectModuleDeps(mod); err != nil {
+				return nil, err
+			}
+			if _, err := mod.ModuleDeps(); err != nil {
+				return nil, err
+			}
+		}
+		m.s.Probe("digest-after-direct-deps")
+	case 3:
+		for _, mod := range moduleSet.Modules() {
+			if err := mod.WalkFileInfos(ctx, func(bufmodule.FileInfo) error { return nil }); err != nil {
+				return nil, err
+			}
+		}
+	}
 	out := make([]string, len(m.mods))
 	for _, mod := range moduleSet.Modules() {
 		var idx int
@@ -426,6 +452,10 @@ type policy struct{ m *dsim }
 
 func (p *policy) Decide(s *sched.Sim, op sched.Op) sched.Decision {
 	m := p.m
+	if m.faults && op.Kind == "read" && s.Tape.Draw("shortread?", 4) == 3 {
+		// not a failure: a reader may hand out fewer bytes than asked for
+		return sched.Decision{Fault: "short-read", Arg: s.Tape.Draw("shortreadn", 4096)}
+	}
 	if !m.faults || m.fbudget == 0 {
 		return sched.Decision{}
 	}
@@ -490,9 +520,10 @@ func Run(tp *tape.Tape, env *engine.Env) *engine.Outcome {
 		}
 		var got []string
 		var err error
-		fired := totalFired(s)
+		fired, short := totalFired(s), s.Faults["short-read"]
 		m.exec(func(ctx context.Context) { got, err = m.digests(ctx, c, nil) })
-		fired = totalFired(s) - fired
+		// (a short read is legal reader behaviour, not a failure)
+		fired = totalFired(s) - fired - (s.Faults["short-read"] - short)
 		kinds[c.backend] = struct{}{}
 		s.Event("config %s faults=%v fired=%d err=%v", c, m.faults, fired, err != nil)
 		if err != nil {
@@ -546,6 +577,11 @@ func Run(tp *tape.Tape, env *engine.Env) *engine.Outcome {
 				m.violate("manifest-canonical", "format", "manifest text differs from the published line format")
 			}
 		}
+	}
+
+	// the same module objects asked by several goroutines at once
+	if tp.Draw("concurrent", 2) == 1 {
+		m.concurrentDigests(ref)
 	}
 
 	// a local v2 workspace as a backend (modules in sub-directories, LICENSE / doc file inheritance)
@@ -736,6 +772,86 @@ func totalFired(s *sched.Sim) int {
 		n += v
 	}
 	return n
+}
+
+// concurrentDigests: several goroutines ask the same module objects for their digests and
+// dependencies at the same time, running freely (no scheduling points, nothing drawn or hashed;
+// GOMAXPROCS is 1, 4 or 16 depending on the worker). Whatever lazy computation and memoization sits
+// behind Digest() and ModuleDeps(), every caller must get the reference value.
+func (m *dsim) concurrentDigests(ref []string) {
+	ctx := context.Background()
+	builder := bufmodule.NewModuleSetBuilder(ctx, slogext.NopLogger, bufmodule.NopModuleDataProvider, bufmodule.NopCommitProvider)
+	for i, md := range m.mods {
+		bucket, err := storagemem.NewReadBucket(md.files)
+		if err != nil {
+			panic(err)
+		}
+		fn, err := bufparse.ParseFullName(md.name)
+		if err != nil {
+			panic(err)
+		}
+		builder.AddLocalModule(bucket, fmt.Sprintf("bucket-%d", i), true, bufmodule.LocalModuleWithFullNameAndCommitID(fn, md.commit))
+	}
+	moduleSet, err := builder.Build()
+	if err != nil {
+		m.violate("digest-computable", "concurrent", "module set of %d modules cannot be built: %v", len(m.mods), err)
+		return
+	}
+	const callers = 6
+	type answer struct {
+		idx    int
+		digest string
+		err    error
+	}
+	answers := make([][]answer, callers)
+	var wg sync.WaitGroup
+	for c := 0; c < callers; c++ {
+		wg.Add(1)
+		go func(c int) {
+			defer wg.Done()
+			defer func() {
+				// a caller that panics got neither a digest nor an error
+				if r := recover(); r != nil {
+					answers[c] = append(answers[c], answer{idx: -1, err: fmt.Errorf("panic: %v", r)})
+				}
+			}()
+			mods := moduleSet.Modules()
+			for k := range mods {
+				// callers start at different modules
+				mod := mods[(k+c)%len(mods)]
+				var idx int
+				if _, err := fmt.Sscanf(mod.BucketID(), "bucket-%d", &idx); err != nil {
+					answers[c] = append(answers[c], answer{idx: -1, err: err})
+					continue
+				}
+				if c%2 == 1 {
+					if _, err := mod.ModuleDeps(); err != nil {
+						answers[c] = append(answers[c], answer{idx: idx, err: err})
+						continue
+					}
+				}
+				d, err := mod.Digest(bufmodule.DigestTypeB5)
+				if err != nil {
+					answers[c] = append(answers[c], answer{idx: idx, err: err})
+					continue
+				}
+				answers[c] = append(answers[c], answer{idx: idx, digest: d.String()})
+			}
+		}(c)
+	}
+	wg.Wait()
+	for c := range answers {
+		for _, a := range answers[c] {
+			switch {
+			case a.err != nil:
+				m.violate("digest-computable", "concurrent", "caller %d of %d concurrent callers: digest of module %d failed: %v", c, callers, a.idx, a.err)
+			case a.digest != ref[a.idx]:
+				m.violate("digest-equals-published-construction", "concurrent", "caller %d of %d concurrent callers got %s for module %d, reference %s", c, callers, a.digest, a.idx, ref[a.idx])
+			}
+		}
+	}
+	m.counters["concurrent_digest_rounds"]++
+	m.s.Probe("concurrent-digest-callers")
 }
 
 // workspaceBackend lays all modules out as one v2 workspace (buf.yaml at the root, one directory
